@@ -1,7 +1,9 @@
 ------------------------------ MODULE CargoCfg_MC ------------------------------
 (***************************************************************************)
 (* Model: every sequence of up to MaxTok tokens over the alphabet          *)
-(*   all any not ( ) , = a b "x" "y"                                       *)
+(*   all any not ( ) , = a notify "x" "all"                                *)
+(* (a name that merely starts with an operator word and a string value     *)
+(* spelled like one: neither is an operator)                               *)
 (* is classified the same way by the recursive-descent parser and by the   *)
 (* declarative span grammar, both give the same value under every          *)
 (* configuration of a and b, and lexing the rendered text gives the        *)
@@ -14,12 +16,12 @@ VARIABLES toks
 vars == <<toks>>
 
 X == <<120>>
-Y == <<121>>
+Y == KwAll                     \* the string value "all"
 NameA == <<97>>
-NameB == <<98>>
+NameB == <<110, 111, 116, 105, 102, 121>>     \* notify
 Alphabet == { Tok("id", KwAll), Tok("id", KwAny), Tok("id", KwNot), Tok("(", <<>>), Tok(")", <<>>), Tok(",", <<>>), Tok("=", <<>>),
               Tok("id", NameA), Tok("id", NameB), Tok("str", X), Tok("str", Y) }
-\* a and b each: unset, set without a value, set to "x", set to "y"
+\* a and notify each: unset, set without a value, set to "x", set to "all"
 Settings(n) == { <<>>, <<[n |-> n, v |-> <<>>]>>, <<[n |-> n, v |-> X]>>, <<[n |-> n, v |-> Y]>> }
 Configs == { sa \o sb : sa \in Settings(NameA), sb \in Settings(NameB) }
 
